@@ -665,6 +665,8 @@ def _interp_internal_from_weight(arr, axis, left, right, lhs_idx, rhs_idx, frac,
     vleft = arr[lhs_idx]
     vright = arr[rhs_idx]
     newval = vleft + _frac*(vright - vleft)
+    # exactly on a node the result is the node's value (the weighted sum is NaN there for an infinite value)
+    newval = np.where(_frac == 0, vleft, newval)
 
     # fill values
     newval[left_idx] = left
